@@ -38,8 +38,11 @@ class FunctionAgent:
         try:
             q = self.requestable.index(tuple(oid))
         except ValueError:
+            # an OID the model does not list (an implementation may probe below a root, e.g. for the next column of a table):
+            # answered honestly with its successor in the universe
             self.unknown_requested.append(tuple(oid))
-            return None
+            later = [u for u in self.universe if u > tuple(oid)]
+            return min(later) if later else None
         row = self.table[q]
         t = row[rep % len(row)]
         return None if t < 0 else self.universe[t]
